@@ -1040,14 +1040,15 @@ def spec_helper(interp, fn, args, kwargs, frame):
     lo, hi, f = args
     zlo, zhi = interp.to_z3(lo), interp.to_z3(hi)
     j = z3.Int(fresh_name('q'))
+    rng = z3.And(j >= zlo, j < zhi)
     interp.path.no_fork += 1
     try:
-      body = interp.truth_z(interp.call(f, [SInt(j)], {}, frame))
+      with interp.path.scoped(rng):
+        body = interp.truth_z(interp.call(f, [SInt(j)], {}, frame))
     finally:
       interp.path.no_fork -= 1
     if isinstance(body, bool):
       body = z3.BoolVal(body)
-    rng = z3.And(j >= zlo, j < zhi)
     if fn is specmod.forall_range:
       return SBool(z3.ForAll([j], z3.Implies(rng, body)))
     return SBool(z3.Exists([j], z3.And(rng, body)))
